@@ -7,7 +7,7 @@ CLAIM = {
           'passes, 1..20 channels, any blocks incl. a short last one, the reader applied to the spec encoder\'s file '
           'returns the names, counts, header numbers, the frame words in channel/frame order and the synthesised X axis; '
           'bit_roundtrip_one_end_marker for the file without the final marker; mkBlocks_spec for blocks of fib frames), '
-          'frame_count, x_axis, x_axis_towards_stop (|spacing| steps towards the stop depth for either sign of the header spacing), ibm_header_eq_isingl (header decoder = RP66V1 ISINGL on every word), '
+          'read_position_independent (the answer does not depend on where the open handle was positioned), frame_count, x_axis, x_axis_towards_stop (|spacing| steps towards the stop depth for either sign of the header spacing), ibm_header_eq_isingl (header decoder = RP66V1 ISINGL on every word), '
           'gen_floats_rel_error / gen_floats_ne (the frame decoder as coded is NOT the IBM value: exact factor '
           '2^24/(2^24-1), known finding F12). The model is tied to the source on every run by comparing it with the real '
           'create_bit_frame_array_from_file on files written by the spec encoder, on damaged files, and on single words. '
@@ -24,7 +24,9 @@ RULE = ('files: random abstract content (1..4 passes, plus files of 5..30 and 10
         'negative zero, extreme exponents, unnormalised and random words, up and down logs, header spacing of either sign) encoded by the Lean spec '
         'encoder, decoded by the model and by ReadBIT; a file is non-trivial when it has >= 2 frames and >= 1 non-zero '
         'value, distinct by (names, frame counts, block size, hash of data). words: structured + random 4-byte words '
-        'through gen_floats / bytes_to_float / ISINGL. malformed: truncation at every byte of tiny files, damaged TIF '
+        'through gen_floats / bytes_to_float / ISINGL. history: ONE open handle (io.BytesIO and a real file on disc) used for a '
+        'random sequence of is_bit_file / decode / decode-twice / seek / read / seek-to-end; every decode must give the recorded '
+        'content (and the model\'s answer) whatever the position before the call, every is_bit_file the answer for the bytes. malformed: truncation at every byte of tiny files, damaged TIF '
         'markers, header counts/names, data block lengths, missing end markers, byte flips (error class compared).')
 ASSUMPTIONS = [
     'channel names in a header are pairwise distinct and differ from "X   " (otherwise LogPass.FrameArray.append raises '
@@ -92,8 +94,13 @@ def err_class(R, e):
 
 def impl_read(R, data):
     """-> (canonical string, list of BITFrameArray or None)"""
+    return impl_read_handle(R, io.BytesIO(data))
+
+
+def impl_read_handle(R, handle):
+    """decode through an already open handle, wherever it is positioned"""
     try:
-        fas = R.create_bit_frame_array_from_file(io.BytesIO(data))
+        fas = R.create_bit_frame_array_from_file(handle)
     except Exception as e:          # noqa: every class is canonicalised
         return err_class(R, e), None
     out = []
@@ -312,14 +319,12 @@ def layout(recs):
 
 # ------------------------------------------------------------------ the property oracle (implementation alone)
 
-def oracle_file(ctx, R, passes, data, variant='full', fas='unset'):
+def oracle_file(ctx, R, passes, data, variant='full', fas='unset', case=None, out=None):
     """passes: abstract content; data: file bytes. Returns number of failures recorded."""
     ctx.count('oracle_cases')
-    case = case_of(passes, data, variant)
+    case = case or case_of(passes, data, variant)
     if fas == 'unset':
         out, fas = impl_read(R, data)
-    else:
-        out = None
     if fas is None:
         ctx.fail(case, f'reader raised on a well-formed file: {out}'); return 1
     if len(fas) != len(passes):
@@ -652,12 +657,144 @@ def stream_malformed(ctx, R):
     ctx.extra['malformed_outcomes'] = {k.strip(): v for k, v in sorted(classes.items())}
 
 
+# ------------------------------------------------------------------ object history: one open handle, many operations
+
+import string as _string
+_PRINTABLE = set(_string.printable.encode('ascii'))
+
+
+def expected_is_bit(data):
+    """what is_bit_file must answer for these file bytes (reference written from the is_bit_file docstring/code: first TIF
+    marker with next != 0, then 4 bytes, a 160-byte block whose bytes 0..72 and 96..152 are printable, a count <= 20
+    and that many printable 4-byte names) — a pure function of the bytes, independent of any handle position"""
+    if len(data) < 12 or struct.unpack('<L', data[8:12])[0] == 0:
+        return False
+    r = data[16:176]
+    if len(r) < 160 or any(v not in _PRINTABLE for v in r[:72]) or any(v not in _PRINTABLE for v in r[96:152]):
+        return False
+    count = struct.unpack('>H', data[176:178])[0]
+    if count > 20:
+        return False
+    return all(v in _PRINTABLE for v in data[180:180 + 4 * count])
+
+
+def gen_history(rng, size):
+    """a random sequence of operations on one handle; every sequence decodes at least twice"""
+    ops = []
+    for _ in range(rng.randint(3, 9)):
+        k = rng.random()
+        if k < 0.22: ops.append(['is_bit'])
+        elif k < 0.50: ops.append(['decode'])
+        elif k < 0.62: ops.append(['decode']); ops.append(['decode'])
+        elif k < 0.74: ops.append(['seek', rng.choice([0, 1, 11, 12, 16, 176, 180, 288, size // 2, max(size - 1, 0), size, size + 5,
+                                                        rng.randint(0, size)])])
+        elif k < 0.84: ops.append(['read', rng.choice([1, 4, 12, 276, rng.randint(0, size + 3)])])
+        elif k < 0.94: ops.append(['seek_end'])
+        else: ops.append(['tell'])
+    ops.append(rng.choice([['is_bit'], ['seek_end'], ['read', 7], ['seek', rng.randint(1, max(size, 1))]]))
+    ops.append(['decode'])
+    return ops
+
+
+FIXED_HISTORIES = [
+    [['is_bit'], ['decode']],                       # the handle is left inside the header by is_bit_file
+    [['seek_end'], ['decode']],                     # size query first
+    [['decode'], ['decode']],                       # twice in a row: the second result equals the first
+    [['read', 7], ['decode'], ['is_bit'], ['decode']],
+    [['seek', 12], ['decode']],
+    [['decode'], ['is_bit'], ['seek_end'], ['is_bit'], ['decode']],
+]
+
+
+def run_history(ctx, R, passes, data, kind, ops, path=None, model=None, record=True):
+    """execute ops on ONE handle (kind 'bytesio' | 'disk'); every decode must give the recorded content and every
+    is_bit_file the same answer, whatever the handle position before the call. Returns list of failure details."""
+    import os
+    case = dict(case_of(passes, data, 'history'), op='history', kind=kind, ops=ops)
+    fails = []
+    if kind == 'disk':
+        if path is None:
+            path = os.path.join(ctx.scratch, f'hist_{ctx.stats["history_files"]}.bit'); ctx.count('history_files')
+            with open(path, 'wb') as fh:
+                fh.write(data)
+        handle = open(path, 'rb')
+    else:
+        handle = io.BytesIO(data)
+    want_bit = expected_is_bit(data)
+    first = None
+    try:
+        for k, op in enumerate(ops):
+            if op[0] == 'seek': handle.seek(op[1])
+            elif op[0] == 'seek_end': handle.seek(0, 2)
+            elif op[0] == 'read': handle.read(op[1])
+            elif op[0] == 'tell': handle.tell()
+            elif op[0] == 'is_bit':
+                ctx.count('oracle_cases')
+                pos = handle.tell()
+                try:
+                    got = R.is_bit_file(handle)
+                except Exception as e:      # noqa
+                    got = f'{type(e).__name__}: {e}'
+                if got is not want_bit:
+                    d = f'op {k} is_bit_file with the handle at {pos}: {got!r}, expected {want_bit!r} for this file'
+                    fails.append(d); ctx.fail(case, d); break
+            elif op[0] == 'decode':
+                pos = handle.tell()
+                out, fas = impl_read_handle(R, handle)
+                if model is not None:
+                    ctx.corr('history', case if record else None, out, model)
+                n0 = len(ctx.failures)
+                oracle_file(ctx, R, passes, data, 'history', fas, case=case,
+                            out=f'{out} (op {k}: decode through the {kind} handle positioned at {pos})')
+                new = [f for f in ctx.failures[n0:] if not f['finding']]
+                if new:
+                    new[-1]['detail'] = f'op {k} decode with the {kind} handle at {pos}: ' + new[-1]['detail']
+                    fails.append(new[-1]['detail']); break
+                if first is None:
+                    first = out
+                elif out != first:
+                    d = f'op {k} decode with the {kind} handle at {pos} differs from the first decode through the same handle'
+                    fails.append(d); ctx.fail(case, d); break
+    finally:
+        handle.close()
+    return fails
+
+
+def stream_history(ctx, R, cases, files):
+    """cases/files: abstract contents and their encoded bytes (from stream_files)"""
+    rng = ctx.rng
+    pool = [(ps, data) for ps, data in zip(cases, files) if len(data) < 6000][:ctx.n(140, 1200)]
+    # make a share of them look like BIT files to is_bit_file (printable block) so that both answers occur
+    reqs, plan = [], []
+    for j, (ps, data) in enumerate(pool):
+        if j % 2 == 0:
+            ps = [dict(p) for p in ps]
+            ps[0]['ub'] = bytes(rng.choice(b'ABCDEFGHIJKLMNOPQRSTUVWXYZ 0123456789/-') for _ in range(75))
+            data = layout(file_records(ps))
+        hs = ([FIXED_HISTORIES[j % len(FIXED_HISTORIES)]] if j < 4 * len(FIXED_HISTORIES) else []) + [gen_history(rng, len(data))]
+        for ops in hs:
+            for kind in ('bytesio', 'disk'):
+                plan.append((ps, data, kind, ops))
+        # the model's answer for a handle at the positions used (position independence of readHandle)
+        reqs.append(f'decat {rng.choice([0, 12, 180, len(data) // 2, len(data), len(data) + 3])} {hx(data)}')
+    model = ctx.lean(reqs)
+    by_data = {}
+    for r, m in zip(reqs, model):
+        by_data[r.split(' ')[2]] = m
+    for ps, data, kind, ops in plan:
+        run_history(ctx, R, ps, data, kind, ops, model=by_data[hx(data)], record=len(data) < 1500)
+        ctx.nontriv(('history', kind, tuple(o[0] for o in ops)))
+    ctx.count('history_cases', len(plan))
+    ctx.sample({'op': 'history', 'kind': 'disk', 'ops': plan[-1][3], 'bytes': len(plan[-1][1])})
+
+
 def run(ctx):
     R = _impl()
     _quiet()
     try:
         stream_words(ctx, R)
-        stream_files(ctx, R)
+        cases, files = stream_files(ctx, R)
+        stream_history(ctx, R, cases, files)
         stream_negative_spacing(ctx, R)
         stream_malformed(ctx, R)
     finally:
@@ -689,6 +826,12 @@ def replay(ctx, rec):
                 return False, '; '.join(f['detail'] for f in unlisted) + (f' (also: {known})' if known else '')
             return True, ('every name, count, header number, frame value and X value equals the recorded content'
                           + (f', except: {known}' if known else ''))
+        if case.get('op') == 'history':
+            ps = _passes_from_case(case)
+            fails = run_history(ctx, R, ps, bytes.fromhex(case['hex']), case['kind'], case['ops'])
+            if fails:
+                return False, '; '.join(fails)
+            return True, f'every decode and is_bit_file through the one {case["kind"]} handle gave the answer for the file ({case["ops"]})'
         if case.get('op') == 'word':
             w = bytes.fromhex(case['hex'])
             g = list(R.gen_floats(w))[0]; h = R.bytes_to_float(w); e = ibm(w)
